@@ -142,7 +142,7 @@ OffsetReg(k) == CASE k = 1 -> 8 [] k = 2 -> 10 [] k = 3 -> 11 [] k = 5 -> 9 [] O
 \* calls for which a result in ErrCodes is an error (gas / checkpoint return a gas counter; expunge a 64-bit
 \* instruction counter, so only WHO is its error; write answers NONE for "no previous value")
 ErrSet(k) == CASE k \in {0, 17} -> {} [] k = 4 -> {FULL} [] k = 13 -> {WHO} [] OTHER -> ErrCodes
-CtxFields == {"self", "nextid", "t", "svcs", "xfers", "priv", "yield", "prov", "vk", "aq", "kv", "machines", "nexp", "expd", "expoff"}
+CtxFields == {"self", "nextid", "t", "svcs", "xfers", "priv", "yield", "prov", "vk", "aq", "kv", "kvl", "machines", "nexp", "expd", "expoff"}
 SelfMayChange == {4, 18, 19, 20, 21, 23, 24}
 
 InputsOK(k, pre) ==
